@@ -1848,3 +1848,120 @@ func ruleBIND7(c *Ctx) {
 		c.unres(rule, "template/_act/user-calls", "", "only %d action calls of model user productions found in _act (4 expected: arities 0, 1, 3 and the variadic one)", n)
 	}
 }
+
+// ---- BIND-8: methods the generated actions call on user types are checked by the generator ----
+//
+// The template branches of 'x*!' / 'x+!' call a method on every element (read from the instance:
+// a selector call on a value whose type is a term's Go type). Such a call compiles only if the
+// user's type has the method, so the generator must look the method up on the rule's Go type and
+// fail with a diagnostic otherwise. (Pinned tree: fired - `item*!` over `int` made lox succeed
+// and the generated parser fail to compile; repaired by c057754.)
+func ruleBIND8(c *Ctx) {
+	const rule = "BIND-8"
+	ta := c.tmplOrUnres(rule)
+	if ta == nil {
+		return
+	}
+	ti := ta.Variants[0]
+	_, fd := actCases(ti)
+	if fd == nil {
+		c.unres(rule, "template/_act", "", "_act not found")
+		return
+	}
+	// method names the generated actions call on values of term types
+	called := map[string]token.Pos{}
+	ast.Inspect(fd.Body, func(n ast.Node) bool {
+		call, ok := n.(*ast.CallExpr)
+		if !ok {
+			return true
+		}
+		sel, ok := call.Fun.(*ast.SelectorExpr)
+		if !ok {
+			return true
+		}
+		if s := ti.Info.Selections[sel]; s != nil && s.Kind() == types.MethodVal {
+			if nt, ok := s.Recv().(*types.Named); ok && strings.HasPrefix(nt.Obj().Name(), "_Tterm") {
+				called[sel.Sel.Name] = call.Pos()
+			}
+		}
+		return true
+	})
+	if len(called) == 0 {
+		c.ok(rule, "template/_act/user-type-methods", "", "the generated actions call no method on values of user types")
+		return
+	}
+	p := c.Prog
+	pk := p.Pkg("internal/codegen")
+	info := pk.TypesInfo
+	for name, pos := range called {
+		// a go/types method lookup by that name whose failure leads to a logged error
+		found := false
+		p.ProdFiles(func(pk2 *packages.Package, f *ast.File) {
+			if pk2 != pk {
+				return
+			}
+			for _, d := range f.Decls {
+				hd, ok := d.(*ast.FuncDecl)
+				if !ok || hd.Body == nil {
+					continue
+				}
+				ast.Inspect(hd.Body, func(n ast.Node) bool {
+					call, ok := n.(*ast.CallExpr)
+					if !ok {
+						return true
+					}
+					full := fullName(calleeFunc(info, call))
+					if full != "go/types.LookupFieldOrMethod" && full != "go/types.MethodSet.Lookup" && full != "go/types.NewMethodSet" {
+						return true
+					}
+					for _, a := range call.Args {
+						if s, ok := constString(info, a); ok && s == name {
+							// the function doing the lookup must feed a diagnostic: it, or a caller one
+							// level up, logs an error under a condition on its result
+							if lookupGuardsError(p, pk, hd) {
+								found = true
+							}
+						}
+					}
+					return true
+				})
+			}
+		})
+		c.check(found, rule, "template/_act/user-type-method("+name+")", ti.Pos(pos),
+			"the generated actions call "+name+"() on values of a rule's Go type, and the generator looks that method up (go/types) and logs an error when it is missing",
+			"the generated actions call "+name+"() on values of a rule's Go type but the generator never checks that the type has such a method: lox succeeds and the generated parser does not compile")
+	}
+}
+
+// lookupGuardsError: hd itself logs an error, or some function of the package calls hd in a
+// condition that guards an ErrLogger call.
+func lookupGuardsError(p *Program, pk *packages.Package, hd *ast.FuncDecl) bool {
+	info := pk.TypesInfo
+	logs := func(n ast.Node) bool {
+		return len(findCalls(info, n, true, func(fn *types.Func, _ *ast.CallExpr) bool { return isErrLoggerMethod(fn) })) > 0
+	}
+	if logs(hd.Body) {
+		return true
+	}
+	hfn, _ := info.Defs[hd.Name].(*types.Func)
+	ok := false
+	for _, f := range pk.Syntax {
+		if isTestFile(p.Fset, f) {
+			continue
+		}
+		ast.Inspect(f, func(n ast.Node) bool {
+			ifs, isIf := n.(*ast.IfStmt)
+			if !isIf || !logs(ifs.Body) {
+				return true
+			}
+			ast.Inspect(ifs.Cond, func(m ast.Node) bool {
+				if call, isCall := m.(*ast.CallExpr); isCall && hfn != nil && calleeFunc(info, call) == hfn {
+					ok = true
+				}
+				return true
+			})
+			return true
+		})
+	}
+	return ok
+}
